@@ -61,6 +61,8 @@ type Gen struct {
 	// shared slice is observable only through the growth policy, which Go leaves to the implementation
 	// (and which differs between []int32 and goatlang's []Value): such appends are never generated.
 	shared map[string]bool
+	// ctrlBias: prefer control-flow statements (C06 profile)
+	ctrlBias bool
 }
 
 func NewGen(r *rand.Rand, o GenOpts) *Gen { return &Gen{r: r, o: o} }
@@ -559,7 +561,15 @@ func (g *Gen) callOf(f gfunc, depth int) *E {
 		// receiver: a visible variable of the struct type, else a fresh instance
 		rt := PtrTo(f.recvTy)
 		var recv *E
-		if vs := g.varsOf(rt, false); len(vs) > 0 {
+		// receivers that may be nil are left out: goatlang finds methods through the instance, so a method
+		// call on a nil pointer fails where Go runs the method (recorded finding C01/nil-receiver)
+		var vs []gvar
+		for _, x := range g.varsOf(rt, false) {
+			if !x.maybeNil {
+				vs = append(vs, x)
+			}
+		}
+		if len(vs) > 0 {
 			recv = &E{K: "var", Ty: rt, Name: vs[g.r.Intn(len(vs))].name}
 		} else {
 			recv = g.literal(rt)
@@ -681,6 +691,9 @@ func (g *Gen) lvalue(t *Ty, depth int) *E {
 func (g *Gen) stmt(depth int) []*S {
 	g.budget--
 	x := g.r.Intn(100)
+	if g.ctrlBias && depth > 0 && g.r.Intn(100) < 55 {
+		x = 56 + g.r.Intn(37) // if / loops / switch / break / continue / return
+	}
 	switch {
 	case x < 18: // declaration
 		t := g.anyType()
@@ -715,7 +728,7 @@ func (g *Gen) stmt(depth int) []*S {
 				s = &S{K: "decl", Names: []string{name}, Exprs: []*E{e}}
 			}
 		}
-		g.declare(gvar{name: name, ty: t})
+		g.declare(gvar{name: name, ty: t, maybeNil: s.K == "declzero" && (t.K == "ptr" || t.K == "map")})
 		if t.K == "slice" && len(s.Exprs) == 1 && s.Exprs[0].K == "var" {
 			g.shared[name] = true
 		}
@@ -824,15 +837,6 @@ func (g *Gen) stmt(depth int) []*S {
 			g.impure = true
 		}
 		var pre []*S
-		if c.K == "mcall" && c.X.K != "var" {
-			// a statement must not begin with "(": goatlang has no automatic semicolon insertion and would
-			// read `x := y` NEWLINE `(&T{}).M()` as one call expression (recorded finding C01/semicolon);
-			// bind the receiver to a variable first
-			rv := g.fresh("rc")
-			pre = append(pre, &S{K: "decl", Names: []string{rv}, Exprs: []*E{c.X}})
-			g.declare(gvar{name: rv, ty: c.X.Ty, ro: true})
-			c.X = &E{K: "var", Ty: c.X.Ty, Name: rv}
-		}
 		if len(f.results) >= 2 && g.r.Intn(2) == 0 {
 			// multi-value declaration
 			s := &S{K: "decl", Exprs: []*E{c}}
